@@ -250,7 +250,7 @@ pub fn c12_main(tier: Tier) -> i32 {
                 "distinct_nontrivial": rr.nontrivial,
                 "rule": prop.rule(),
                 "exhaustive": true,
-                "explanation": format!("BFS to fixpoint over canonical keys (real global::Client state id x share id) with {} events per state (the 12 letters, a Set Error Info with a non-zero code, a deactivate-all naming another share id, a font list sent by the server, a font map with mapFlags 0, a share-control PDU of a type the client does not implement, and every ordered pair of the 15 slow-path letters packed into one frame; in a packed frame everything in front of the unimplemented PDU counts, what follows it may be lost), every transition executed by replaying the history on a fresh real client; plus every history of length <= depth without merging, whose final keys must all lie in the BFS fixpoint", n_ev),
+                "explanation": format!("BFS to fixpoint over canonical keys (real global::Client state id x share id) with {} events per state (the 12 letters, a Set Error Info with a non-zero code, a deactivate-all naming another share id, a font list sent by the server, a font map with mapFlags 0, a share-control PDU of a type the client does not implement, a demand-active with an empty capability list (alone in its frame only), and every ordered pair of the 15 other slow-path letters packed into one frame; in a packed frame everything in front of the unimplemented PDU counts, what follows it may be lost), every transition executed by replaying the history on a fresh real client; plus every history of length <= depth without merging, whose final keys must all lie in the BFS fixpoint", n_ev),
                 "violations_detail": viols,
                 "known_findings_matched": known,
             }),
